@@ -123,6 +123,7 @@ var menus = map[string]string{
 	"MZ":   "PC PP0 NV NVM NVB VC",
 	"MNC":  "PC PP0 NC", // + the adversary's own messages signed over a non-canonical encoding of the header
 	"ME":   "NVE",
+	"MCS":  "PC CS", // + own COMMIT carrying another member's random-seed share
 	"MX":   "PC PX", // + PREPARE / COMMIT for a hash nobody proposed
 	"MT":   "PC NVT", // NEW_VIEW of a Byzantine leader whose embedded proposal declares another message type
 	"MB":   "PC NVB",           // NEW_VIEWs of a Byzantine leader, genuine in every signed part, with and without a substituted block body
@@ -248,6 +249,7 @@ func plan(prop, tier string) []run {
 		add("K3b@v2", "M3", 0, mul*10*time.Second)  // every vote variant of two Byzantine members for the correct leader of view 2: exhaustive
 		add("K10^2@v1", "M0", 0, mul*5*time.Second)   // weights 7,1,1,1: the first leader is a quorum by itself and decides inside its own proposal step: exhaustive
 		add("K10b^2@v1", "M0", 0, mul*5*time.Second)  // the same with the light members silent
+		add("K1@v0a", "MCS", 0, mul*10*time.Second)  // Byzantine COMMITs that carry a correct member's random-seed share: exhaustive
 		add("K1@v1a", "MNC", 0, mul*10*time.Second) // the adversary's own messages signed over non-canonical header encodings: exhaustive
 		add("K3b@v1", "MNC", 0, mul*10*time.Second) // the same with two Byzantine members, weighted: exhaustive
 		add("K2@v1a", "MNC", 0, mul*25*time.Second) // the same from the proposer of view 0 (PREPREPARE, votes to the correct leader of view 1): exhaustive
